@@ -4267,18 +4267,9 @@ ZSTD_compressBlock_splitBlock_internal(ZSTD_CCtx* zc,
 
     ZSTD_deriveSeqStoreChunk(currSeqStore, &zc->seqStore, 0, partitions[0]);
     for (i = 0; i <= numSplits; ++i)
-    ZSTD_VERIF_LOOP(
-        __CPROVER_assigns(i, ip, op, dstCapacity, cSize, srcBytesTotal, dRep, cRep,
-                          zc->blockSplitCtx.currSeqStore, zc->blockSplitCtx.nextSeqStore,
-                          zc->blockState.prevCBlock, zc->blockState.nextCBlock,
-                          __CPROVER_object_whole(dst),
-                          __CPROVER_object_whole(zc->blockState.prevCBlock), __CPROVER_object_whole(zc->blockState.nextCBlock))
-        __CPROVER_loop_invariant(i <= numSplits + 1
-                              && cSize + dstCapacity == __CPROVER_loop_entry(dstCapacity)
-                              && op == __CPROVER_loop_entry(op) + cSize
-                              && ZSTD_VERIF_BLOCKSTATE_SWAPPED(zc, __CPROVER_loop_entry(zc->blockState.prevCBlock), __CPROVER_loop_entry(zc->blockState.nextCBlock)))
-        __CPROVER_decreases(numSplits + 1 - i))
+    ZSTD_VERIF_LOOP(ZSTD_VERIF_SPLIT_LOOP(zc, i, numSplits, ip, op, (BYTE*)dst, dstCapacity, cSize, srcBytesTotal, dRep, cRep))
     {
+        ZSTD_VERIF_GHOST(ZSTD_VERIF_REBASE(op, (BYTE*)dst);)
         size_t cSizeChunk;
         U32 const lastPartition = (i == numSplits);
         U32 lastBlockEntireSrc = 0;
